@@ -282,7 +282,7 @@ func checkC20(c *Check) {
 		}
 		toks := strings.Join(normStream(rec.Evs, normOpts{}), " ")
 		// elements 2 and 3 must describe the integer 7 (marked once, referenced once), not the struct
-		if err != nil || strings.Count(toks, "I:7") != 2 {
+		if err != nil || strings.Count(toks, "N:7") != 2 {
 			c.Violation(fmt.Sprintf("marshaling [p p &p.First &p.First] (p.First = 7) to %s gives a stream that does not describe it: %s (err %v); expected the integer 7 twice (struct field and marked element)", format, toks, err),
 				map[string]interface{}{"kind": "graph-first-field", "format": format, "stream": toks, "want": want})
 			continue
